@@ -127,13 +127,13 @@ func mutateModule(t *rapid.T, g gdsl.Graph, i int, what string) (gdsl.Graph, c06
 	}
 	switch mut.What {
 	case "binary-content":
-		out.Bins = append(out.Bins, gdsl.Bin{Type: out.Bins[m.Binary].Type, Content: out.Bins[m.Binary].Content + "!"})
+		out.Bins = append(out.Bins, gdsl.Bin{Type: out.Bins[m.Binary].Type, Content: out.Bins[m.Binary].Content + sdsl.Bin(rapid.SampledFrom([]string{"!", " ", "\x00", "\n"}).Draw(t, "contentsuffix"))})
 		m.Binary = uint32(len(out.Bins) - 1)
 	case "binary-type":
 		out.Bins = append(out.Bins, gdsl.Bin{Type: out.Bins[m.Binary].Type + "+wasm-bindgen-shims", Content: out.Bins[m.Binary].Content})
 		m.Binary = uint32(len(out.Bins) - 1)
 	case "entrypoint":
-		m.Entry = m.Entry + "_v2"
+		m.Entry = m.Entry + rapid.SampledFrom([]string{"_v2", " ", "\n", "X"}).Draw(t, "entrysuffix")
 	case "initial-block":
 		m.Initial = m.Initial + rapid.Uint64Range(1, 1000).Draw(t, "delta")
 	case "kind":
@@ -236,7 +236,14 @@ func mutateModule(t *rapid.T, g gdsl.Graph, i int, what string) (gdsl.Graph, c06
 		if len(m.Inputs) == 0 || m.Inputs[0].T != "params" {
 			return g, mut, false
 		}
-		m.Inputs[0].Value = m.Inputs[0].Value + " || k3"
+		// any change of the value counts, including ones that differ only in blanks, case or a trailing newline
+		v := m.Inputs[0].Value
+		nv := rapid.SampledFrom([]string{v + " || k3", v + " ", v + "\n", " " + v, "\t" + v, v + "x", strings.ToUpper(v) + "_", v + v + "1", ""}).Draw(t, "newvalue")
+		if nv == v {
+			nv = v + "!"
+		}
+		m.Inputs[0].Value = nv
+		mut.Arg, mut.Arg2 = v, nv
 	case "input-source-type":
 		var ks []int
 		for k, in := range m.Inputs {
@@ -248,10 +255,11 @@ func mutateModule(t *rapid.T, g gdsl.Graph, i int, what string) (gdsl.Graph, c06
 			return g, mut, false
 		}
 		k := ks[rapid.IntRange(0, len(ks)-1).Draw(t, "which")]
-		nt := "sf.other.v1.Block"
-		if hasInput("source", nt) {
+		nt := rapid.SampledFrom([]string{"sf.other.v1.Block", m.Inputs[k].Ref + " ", " " + m.Inputs[k].Ref, m.Inputs[k].Ref + "2", strings.ToLower(m.Inputs[k].Ref) + "x"}).Draw(t, "newsourcetype")
+		if hasInput("source", nt) || nt == m.Inputs[k].Ref {
 			return g, mut, false
 		}
+		mut.Arg, mut.Arg2 = m.Inputs[k].Ref, nt
 		m.Inputs[k].Ref = nt
 	case "input-swap":
 		first := 0
@@ -285,7 +293,7 @@ func mutateModule(t *rapid.T, g gdsl.Graph, i int, what string) (gdsl.Graph, c06
 		if m.Filter == nil || m.Filter.FromParams {
 			return g, mut, false
 		}
-		m.Filter.Query = "(" + m.Filter.Query + ") || k9"
+		m.Filter.Query = rapid.SampledFrom([]string{"(" + m.Filter.Query + ") || k9", m.Filter.Query + " ", " " + m.Filter.Query, m.Filter.Query + " k9"}).Draw(t, "newquery")
 	case "filter-module":
 		if m.Filter == nil {
 			return g, mut, false
